@@ -139,6 +139,10 @@ def defrag_compact_cache(cache, min_percent=0.1, min_bytes=1024*1024, log_progre
         offset = bundle_offset(bundle_file)
         b = cache.bundle_class(bundle_file.rstrip('.bundle'), offset)
         size, file_size = b.size()
+        if not file_size:
+            # bundle without index or data (e.g. left by an interrupted
+            # initialization), nothing to defragment
+            continue
 
         defrag = 1 - float(size) / file_size
         defrag_bytes = file_size - size
